@@ -26,3 +26,9 @@ chk("C14", "exploration",
     "Axes are swept one at a time around a default (no full cross product).",
     "bounded exhaustive enumeration of source-map assignments against the recorded values (differential with the map-free report)",
     "DESIGN.md §3 C14")
+
+chk("C16", "exploration",
+    "Every sentence of the path grammar up to 2 (quick) / 3 (thorough) leaves in every layout of a whitespace/parenthesis menu, and every single-edit mutation of every canonical sentence, is classified by a literal interpreter of the documented PEG with end-of-input and compared with what CompileProfile accepts; accepted strings are compared structurally (AST) and, for a subset, by denotation.",
+    "The reference language is third_party/propertyparser.peg plus end of input, with '^' as the only modifier; the '*' modifier is undocumented.",
+    "bounded exhaustive enumeration of strings (all layouts, all single edits) against a reference recogniser, on the real implementation",
+    "DESIGN.md §3 C16")
